@@ -1,0 +1,46 @@
+//! Verification hooks (only compiled with the `verif` cargo feature).
+//!
+//! `point(name)` marks a named instant inside an operation. By default it does
+//! nothing. A test harness can install a handler which is then called at every
+//! point (to count, pause, delay or kill the process there).
+//!
+//! `fail(name)` asks whether an artificial failure should be injected at a
+//! named stage. By default it answers `false`.
+
+use std::sync::{Arc, RwLock};
+
+/// A handler called at every named point
+pub type PointHandler = Arc<dyn Fn(&'static str) + Send + Sync>;
+
+/// A handler deciding whether to inject a failure at a named stage
+pub type FailHandler = Arc<dyn Fn(&'static str) -> bool + Send + Sync>;
+
+static POINT_HANDLER: RwLock<Option<PointHandler>> = RwLock::new(None);
+static FAIL_HANDLER: RwLock<Option<FailHandler>> = RwLock::new(None);
+
+/// Install (or remove) the handler called at every named point
+pub fn set_point_handler(handler: Option<PointHandler>) {
+    *POINT_HANDLER.write().unwrap() = handler;
+}
+
+/// Install (or remove) the handler consulted for failure injection
+pub fn set_fail_handler(handler: Option<FailHandler>) {
+    *FAIL_HANDLER.write().unwrap() = handler;
+}
+
+/// A named instant. Calls the installed handler, if any.
+pub fn point(name: &'static str) {
+    let handler = POINT_HANDLER.read().unwrap().clone();
+    if let Some(h) = handler {
+        h(name);
+    }
+}
+
+/// Should an artificial failure be injected at this named stage?
+pub fn fail(name: &'static str) -> bool {
+    let handler = FAIL_HANDLER.read().unwrap().clone();
+    match handler {
+        Some(h) => h(name),
+        None => false,
+    }
+}
